@@ -182,6 +182,7 @@ class FilterI(Iter):
     def __init__(self, inner, f):
         self.inner = inner
         self.f = f
+        self.hashed = getattr(inner, 'hashed', False)   # a filtered hash iteration is still in arbitrary order
 
     def _step(self, ctx, get):
         while True:
@@ -871,8 +872,15 @@ def _min_by(ctx, args, ck):
 @model('Iterator::max_by_key')
 def _max_by_key(ctx, args, ck):
     f = args[1]
+    hashed = getattr(args[0], 'hashed', False) and ctx.m.hash_ties_any
     items = [(ctx.m.call_value(f, [ref_to(x)]), x) for x in drain_iter(ctx, args[0])]
     r = _select(ctx, items, lambda b, x: ctx.m.cmp(b[0], x[0]) <= 0)
+    if hashed and r.variant == 'Some':
+        # the iteration order of a hash container is arbitrary: any entry with the extremal key can be the result
+        best = r.fields[0]
+        ties = [it for it in items if it is best or ctx.m.cmp(it[0], best[0]) == 0]
+        if len(ties) > 1:
+            return Some(ties[ctx.choice(len(ties), 'hash-tie')][1])
     return Some(r.fields[0][1]) if r.variant == 'Some' else r
 
 
